@@ -17,34 +17,96 @@ RULE = ('Generated panels (2-6 geos quick / 2-7 thorough, plus 8-20 geos greedy-
         'attainable interval), size ranges and geo-ratio tolerances include values exactly on attainable ratios '
         '(1.0, 0.5, 2.0, 1/3). Each returned design of both searches is re-evaluated from the raw frame: |T|, |C|, '
         '|C|/|T| (exact rational, inclusive), share(C)/share(T), treatment share (either documented reading), '
-        'required budget (independent closed form / iROAS). Non-trivial: a design was returned and >= 1 specified '
+        'required budget (independent closed form / iROAS). A further class places a bound 1e-7..3e-6 (relative) inside the measured value of a design returned by an '
+        'unconstrained run and searches again. Non-trivial: a design was returned and >= 1 specified '
         'constraint is binding (the unconstrained design space over the admitted geos holds both satisfying and '
         'violating candidates); distinct by input description.')
 ASSUMPTIONS = ['real-valued bounds: a violation needs to exceed the bound by > 1e-9 relative',
                'an unspecified constraint is never read by the oracle']
 EXHAUSTIVE = {'quick': False, 'thorough': False}
-MINIMA = {'quick': {'designs_checked': 300, 'distinct_nontrivial': 80, 'on_bound_designs': 20, 'greedy_with_budget': 15},
-          'thorough': {'designs_checked': 5000, 'distinct_nontrivial': 1000, 'on_bound_designs': 300, 'greedy_with_budget': 200}}
+MINIMA = {'quick': {'near_bound_cases': 50, 'designs_checked': 300, 'distinct_nontrivial': 80, 'on_bound_designs': 20, 'greedy_with_budget': 15},
+          'thorough': {'near_bound_cases': 500, 'designs_checked': 5000, 'distinct_nontrivial': 1000, 'on_bound_designs': 300, 'greedy_with_budget': 200}}
 N = {'quick': 384, 'thorough': 3600}
 N_LARGE = {'quick': 16, 'thorough': 120}
+N_NEAR = {'quick': 96, 'thorough': 900}
 CASE_TIMEOUT = {'quick': 300, 'thorough': 900}
 
 
 def n_cases(tier):
-  return N[tier] + N_LARGE[tier]
+  return N[tier] + N_LARGE[tier] + N_NEAR[tier]
 
 
 def gen_case(tier, seed, idx):
-  return {'tier': tier, 'seed': seed, 'idx': idx, 'kind': 'random' if idx < N[tier] else 'large'}
+  kind = 'random' if idx < N[tier] else ('large' if idx < N[tier] + N_LARGE[tier] else 'near')
+  return {'tier': tier, 'seed': seed, 'idx': idx, 'kind': kind}
 
 
 def prepare(tier):
   probes.install_heap()
 
 
+def run_near_bound(spec, r, g):
+  """Two-phase case: search without the constraint, measure one returned design from the raw frame, then place
+  the bound a few parts per million INSIDE that value and search again on fresh objects: that design (and any other
+  beyond the bound) must be gone. Random bounds never land this close to an attainable value."""
+  G = r.randrange(3, 7)
+  case = sl.make_case(r, g, G, allow=('size',), elig_mode=r.choice(['none', 'mostly_ctx', 'ctx']), elig_extra='none')
+  case['params']['n_designs'] = 100000
+  truth = sl.Truth(case)
+  which = r.choice(['exhaustive', 'greedy', 'greedy'])
+  counters = collections.Counter()
+  violations = []
+  desc = sl.describe(case, with_frame=False)
+  first = sl.run_search(case, which)
+  if not first['outcome'].ok or not first['designs']:
+    return {'nontrivial': False, 'fp': util.fp(desc), 'classes': ['near-bound-empty'], 'counters': {'near_bound_empty': 1},
+            'violations': [], 'sample': None}
+  nd = r.choice(first['designs'])
+  kind = r.choice(['budget_hi', 'budget_lo', 'volume', 'share_hi', 'share_lo', 'geo_ratio'])
+  eps = r.choice([3e-6, 1e-6, 1e-7])
+  kw = dict(case['params'])
+  T, C = nd['t'], nd['c']
+  if kind.startswith('budget'):
+    b = truth.req_impact(T, C) / truth.iroas
+    kw['budget_range'] = (0.0, b * (1 - eps)) if kind == 'budget_hi' else (b * (1 + eps), b * 1e6)
+  elif kind == 'volume':
+    v = truth.share_of(C) / truth.share_of(T)
+    big = max(v, 1 / v)
+    if big * (1 - eps) - 1.0 <= 0:
+      return {'nontrivial': False, 'fp': util.fp(desc), 'classes': ['near-bound-skip'], 'counters': {}, 'violations': [], 'sample': None}
+    kw['volume_ratio_tolerance'] = big * (1 - eps) - 1.0
+  elif kind.startswith('share'):
+    sT = truth.share_of(T) / (truth.share_of(first['admitted']) if which == 'greedy' else 1.0)
+    kw['treatment_share_range'] = (1e-9, min(0.999999, sT * (1 - eps))) if kind == 'share_hi' else (sT * (1 + eps), 0.9999999)
+    if not kw['treatment_share_range'][0] < kw['treatment_share_range'][1]:
+      return {'nontrivial': False, 'fp': util.fp(desc), 'classes': ['near-bound-skip'], 'counters': {}, 'violations': [], 'sample': None}
+  else:
+    ratio = max(len(C) / len(T), len(T) / len(C))
+    if ratio * (1 - eps) - 1.0 <= 0:
+      return {'nontrivial': False, 'fp': util.fp(desc), 'classes': ['near-bound-skip'], 'counters': {}, 'violations': [], 'sample': None}
+    kw['geo_ratio_tolerance'] = ratio * (1 - eps) - 1.0
+  case2 = dict(case, params=kw)
+  truth2 = sl.Truth(case2)
+  second = sl.run_search(case2, which)
+  counters['near_bound_cases'] += 1
+  counters['near_bound_' + kind] += 1
+  if second['outcome'].ok and second['designs'] is not None:
+    v, _ = sp.c02_clauses(case2, truth2, second, which)
+    for x in v:
+      x['detail'] = '[bound placed %g inside the value of a previously returned design] %s' % (eps, x['detail'])
+    violations += v
+    counters['designs_checked'] += len(second['designs'])
+  d2 = sl.describe(case2, with_frame=False)
+  return {'nontrivial': True, 'fp': util.fp([d2, kind]), 'classes': ['near-bound', kind], 'counters': dict(counters),
+          'violations': violations[:6], 'sample': {'case': d2, 'kind': kind, 'eps': eps, 'design': [T, C]},
+          'case': sl.describe(case2) if violations else None}
+
+
 def run_case(spec):
   r, g = util.rngs(PROP, spec['seed'], spec['idx'])
   tier = spec['tier']
+  if spec['kind'] == 'near':
+    return run_near_bound(spec, r, g)
   which_list = ('exhaustive', 'greedy')
   focus = ['budget', 'share', 'ratio', 'volume', 'size', 'budget', None][spec['idx'] % 7]
   if spec['kind'] == 'large':
